@@ -4,8 +4,8 @@ import (
 	"encoding/json"
 	"fmt"
 	"os"
-	"time"
 	"testing"
+	"time"
 )
 
 // TestLocal: developer loop. VERIF_L_PROP, VERIF_L_N
@@ -13,6 +13,16 @@ func TestLocal(t *testing.T) {
 	prop := os.Getenv("VERIF_L_PROP")
 	if prop == "" {
 		t.Skip()
+	}
+	if rp := os.Getenv("VERIF_L_REPLAY"); rp != "" {
+		p, err := LoadProgram(rp)
+		if err != nil {
+			t.Fatal(err)
+		}
+		res := Execute(t, p)
+		b, _ := json.MarshalIndent(res, "", " ")
+		t.Logf("%s", b)
+		return
 	}
 	n := envInt("VERIF_L_N", 100)
 	fails := map[string]int{}
